@@ -156,11 +156,61 @@ def strip_assert(n):
     return n
 
 
+def const_value(c):
+    """Compile-time value of a condition in the instantiated program (None when it depends on run-time values)."""
+    c = A.strip(c)
+    if not isinstance(c, dict):
+        return None
+    if c.get('cv') is not None:
+        return bool(c['cv'])
+    if c.get('k') == 'lit' and isinstance(c.get('v'), (bool, int)):
+        return bool(c['v'])
+    if c.get('k') == 'call' and A.callee(c) == '__builtin_expect' and c.get('args'):
+        return const_value(c['args'][0])
+    if c.get('k') == 'un' and c.get('op') == '!':
+        v = const_value(c.get('sub'))
+        return None if v is None else not v
+    if c.get('k') == 'bin' and c.get('op') in ('&&', '||'):
+        l, r = const_value(c.get('lhs')), const_value(c.get('rhs'))
+        if c['op'] == '&&':
+            return False if (l is False or r is False) else (True if (l and r) else None)
+        return True if (l is True or r is True) else (False if (l is False and r is False) else None)
+    return None
+
+
+def live_walk(n):
+    """walk() that does not enter branches the instantiated program can never take (conditions that fold to a constant)."""
+    if isinstance(n, list):
+        for x in n:
+            for y in live_walk(x):
+                yield y
+        return
+    if not isinstance(n, dict):
+        return
+    yield n
+    if n.get('k') == 'if':
+        v = const_value(n.get('c'))
+        for key in ('var', 'c'):
+            for y in live_walk(n.get(key)):
+                yield y
+        if v is None or v:
+            for y in live_walk(n.get('then')):
+                yield y
+        if v is None or not v:
+            for y in live_walk(n.get('else')):
+                yield y
+        return
+    for v in n.values():
+        if isinstance(v, (dict, list)):
+            for y in live_walk(v):
+                yield y
+
+
 def effect_signature(f):
     roles = []
     throws = []
     stores = 0
-    for n in walk({'b': f.get('body'), 'i': f.get('inits')}):
+    for n in live_walk({'b': f.get('body'), 'i': f.get('inits')}):
         if n.get('k') == 'call':
             kd, det = R.role(n)
             if kd:
@@ -196,16 +246,15 @@ def effect_diff(pairs, what):
     rr = RuleResult('EFFECT-DIFF', 'where a function has different source for different language standards (#if alternatives), both alternatives '
                                    'have the same effect signature (helper roles called, exceptions thrown, stores) %s' % what)
     for pa, pb in pairs:
-        fa = {f['key']: f for f in pa.amc_functions()}
-        fb = {f['key']: f for f in pb.amc_functions()}
-        for k in sorted(set(fa) & set(fb)):
-            a, b = fa[k], fb[k]
-            if a['pname'] != b['pname']:
-                continue
+        fa = {(f['key'], f['pname']): f for f in pa.amc_functions()}
+        fb = {(f['key'], f['pname']): f for f in pb.amc_functions()}
+        for kk in sorted(set(fa) & set(fb)):
+            a, b = fa[kk], fb[kk]
+            k = kk[0]
             if body_hash(a) == body_hash(b):
                 continue
             sa, sb = effect_signature(a), effect_signature(b)
-            rr.instance('%s' % k, {'function': a['pname'][:140], 'differs_between': [pa.facts.get('std'), pb.facts.get('std')], 'same_effect_signature': sa == sb})
+            rr.instance('%s|%s' % kk, {'function': a['pname'][:140], 'differs_between': [pa.facts.get('std'), pb.facts.get('std')], 'same_effect_signature': sa == sb})
             if sa != sb:
                 rr.add(Finding('EFFECT-DIFF', '%s' % k, a.get('bloc') or a['loc'],
                                'the alternatives of this function for c++%s and c++%s do not have the same effects: %s vs %s'
